@@ -43,18 +43,18 @@ package proxy
 //@ func (p *OAuthProxy) Proxy(rw http.ResponseWriter, req *http.Request)
 //@   requires fresh_response: rw.$status == 0
 //@   let authn = called(@Authenticate#1) && @Authenticate#1 == nil && arg(@Authenticate#1, 1) == rw && arg(@Authenticate#1, 2) == req
-//@   sink [C01] mediated: ServeHTTP requires $arg1 == req && (old(skipAuth(p.upstreamConfig, req)) || authn)
+//@   sink [C01 C04 C05] mediated: ServeHTTP requires $arg1 == req && (old(skipAuth(p.upstreamConfig, req)) || authn)
 //@   sink [C03] identity_kept: ServeHTTP requires authn ==> req.Header["X-Forwarded-User"] == at(@Authenticate#1, req.Header["X-Forwarded-User"]) && req.Header["X-Forwarded-Email"] == at(@Authenticate#1, req.Header["X-Forwarded-Email"]) && req.Header["X-Forwarded-Groups"] == at(@Authenticate#1, req.Header["X-Forwarded-Groups"]) && req.Header["X-Forwarded-Access-Token"] == at(@Authenticate#1, req.Header["X-Forwarded-Access-Token"])
 //@   sink [C03] skip_auth_carries_no_identity: ServeHTTP requires !authn ==> hdrAbsent(req.Header, "X-Forwarded-User") && hdrAbsent(req.Header, "X-Forwarded-Email") && hdrAbsent(req.Header, "X-Forwarded-Groups") && hdrAbsent(req.Header, "X-Forwarded-Access-Token")
-//@   ensures [C01] no_upstream_unless_mediated: called(@ServeHTTP#1) ==> old(skipAuth(p.upstreamConfig, req)) || authn
+//@   ensures [C01 C04 C05] no_upstream_unless_mediated: called(@ServeHTTP#1) ==> old(skipAuth(p.upstreamConfig, req)) || authn
 
 //@ func (p *OAuthProxy) AuthenticateOnly(rw http.ResponseWriter, req *http.Request)
 //@   requires fresh_response: rw.$status == 0
-//@   ensures [C01] accepted_only_with_session: rw.$status == 202 ==> called(@Authenticate#1) && @Authenticate#1 == nil
+//@   ensures [C01 C04 C05] accepted_only_with_session: rw.$status == 202 ==> called(@Authenticate#1) && @Authenticate#1 == nil
 
 //@ func (p *OAuthProxy) Favicon(rw http.ResponseWriter, req *http.Request)
 //@   requires fresh_response: rw.$status == 0
-//@   ensures [C01] favicon_needs_session: called(@Proxy#1) ==> called(@Authenticate#1) && @Authenticate#1 == nil
+//@   ensures [C01 C04 C05] favicon_needs_session: called(@Proxy#1) ==> called(@Authenticate#1) && @Authenticate#1 == nil
 //@   ensures [C01] favicon_404: (called(@Authenticate#1) && @Authenticate#1 != nil) ==> rw.$status == 404 && !called(@Proxy#1)
 
 // C = the cookies net/http parses from the request. Afterwards the Cookie header is the ";"-join of the
@@ -187,6 +187,8 @@ package proxy
 //@   let PO = src.RouteConfig.Options
 //@   let EO = routeConfig.Options
 //@   ensures [C14] own_route: result.1 == nil && routeConfig.From != "" && routeConfig.To != "" ==> result.0.RouteConfig.From == routeConfig.From && result.0.RouteConfig.To == routeConfig.To && result.0.Service == src.Service
+//@   ensures [C14] stated_type_kept: result.1 == nil && old(routeConfig.Type) != "" ==> result.0.RouteConfig.Type == old(routeConfig.Type)
+//@   ensures [C14] parent_type_when_none_stated: result.1 == nil && old(routeConfig.Type) == "" ==> result.0.RouteConfig.Type == old(src.RouteConfig.Type)
 //@   ensures [C14] parent_options_when_none_stated: result.1 == nil && EO == nil ==> result.0.RouteConfig.Options == PO
 //@   ensures [C14] parent_restrictions_kept: result.1 == nil && EO != nil && PO != nil && EO != PO ==> result.0.RouteConfig.Options == EO && eqList(EO.AllowedGroups, (len(old(EO.AllowedGroups)) > 0 ? old(EO.AllowedGroups) : old(PO.AllowedGroups))) && eqList(EO.SkipAuthRegex, (len(old(EO.SkipAuthRegex)) > 0 ? old(EO.SkipAuthRegex) : old(PO.SkipAuthRegex))) && eqList(EO.AllowedEmailDomains, (len(old(EO.AllowedEmailDomains)) > 0 ? old(EO.AllowedEmailDomains) : old(PO.AllowedEmailDomains))) && eqList(EO.AllowedEmailAddresses, (len(old(EO.AllowedEmailAddresses)) > 0 ? old(EO.AllowedEmailAddresses) : old(PO.AllowedEmailAddresses)))
 
@@ -476,6 +478,33 @@ package proxy
 
 
 // ---- C13: a rewrite route matches what its configured pattern matches ------------------------------------------
+// ---- C14: loading fails closed: a step that fails for any upstream fails the whole load ---------------------------
+// (callees summarised by their own contracts or as "may do anything"; what is pinned here is that no error a step
+// returns for some upstream is dropped on the way out, and that the route type decides which route is built)
+//@ func loadServiceConfigs(raw []byte, cluster string, scheme string, configVars map[string]string, defaultOpts *OptionsConfig) ([]*UpstreamConfig, error)
+//@   modifies everything
+//@   ensures [C14] unparsable_configuration_fails_the_load: called(@parseServiceConfigs#1) && @parseServiceConfigs#1.1 != nil ==> result.1 != nil && result.0 == nil
+//@   ensures [C14] a_block_that_does_not_resolve_fails_the_load: called(@resolveUpstreamConfig#1) && @resolveUpstreamConfig#1.1 != nil ==> result.1 != nil && result.0 == nil
+//@   ensures [C14] an_extra_route_that_does_not_resolve_fails_the_load: called(@resolveExtraRoute#1) && @resolveExtraRoute#1.1 != nil ==> result.1 != nil && result.0 == nil
+//@   ensures [C14] an_incomplete_upstream_fails_the_load: called(@validateUpstreamConfig#1) && @validateUpstreamConfig#1 != nil ==> result.1 != nil && result.0 == nil
+//@   ensures [C14 C13] a_route_that_cannot_be_built_fails_the_load: (called(@simpleRoute#1) && @simpleRoute#1.1 != nil) || (called(@rewriteRoute#1) && @rewriteRoute#1.1 != nil) ==> result.1 != nil && result.0 == nil
+//@   ensures [C14] options_that_do_not_resolve_fail_the_load: called(@parseOptionsConfig#1) && @parseOptionsConfig#1 != nil ==> result.1 != nil && result.0 == nil
+//@   ensures [C14 C12] a_signing_key_that_cannot_be_used_fails_the_load: called(@generateHmacAuth#1) && @generateHmacAuth#1.1 != nil ==> result.1 != nil && result.0 == nil
+// the clauses above cover the iterations that return; these cover the iterations that go on: a loop moves to its
+// next upstream only when this upstream's step succeeded (no error is dropped, shadowed or skipped past)
+//@   loop 1
+//@     invariant [C14] goes_on_only_after_success: !(called(@resolveUpstreamConfig#1) && @resolveUpstreamConfig#1.1 != nil)
+//@   loop 3
+//@     invariant [C14] goes_on_only_after_success: !(called(@resolveExtraRoute#1) && @resolveExtraRoute#1.1 != nil)
+//@   loop 4
+//@     invariant [C14] goes_on_only_after_success: !(called(@validateUpstreamConfig#1) && @validateUpstreamConfig#1 != nil)
+//@   loop 5
+//@     invariant [C14 C13] goes_on_only_after_success: !(called(@simpleRoute#1) && @simpleRoute#1.1 != nil) && !(called(@rewriteRoute#1) && @rewriteRoute#1.1 != nil)
+//@   loop 6
+//@     invariant [C14] goes_on_only_after_success: !(called(@parseOptionsConfig#1) && @parseOptionsConfig#1 != nil)
+//@   loop 7
+//@     invariant [C14 C12] goes_on_only_after_success: !(called(@generateHmacAuth#1) && @generateHmacAuth#1.1 != nil)
+
 //@ func rewriteRoute(scheme string, routeConfig RouteConfig) (*RewriteRoute, error)
 //@   modifies nothing
 //@   fresh result.0
